@@ -80,6 +80,9 @@ func Unmarshal(b []byte, wantLen bool, fn func(typeID protowire.Number, value []
 		if n < 0 {
 			return protowire.ParseError(n)
 		}
+		if num > protowire.MaxValidNumber {
+			return errors.New("invalid field number")
+		}
 		b = b[n:]
 		if num != FieldItem || wtyp != protowire.StartGroupType {
 			n := protowire.ConsumeFieldValue(num, wtyp, b)
@@ -116,6 +119,9 @@ func ConsumeFieldValue(b []byte, wantLen bool) (typeid protowire.Number, message
 		num, wtyp, n := protowire.ConsumeTag(b)
 		if n < 0 {
 			return 0, nil, 0, protowire.ParseError(n)
+		}
+		if num > protowire.MaxValidNumber {
+			return 0, nil, 0, errors.New("invalid field number")
 		}
 		b = b[n:]
 		switch {
